@@ -2,6 +2,7 @@ package main
 
 import (
 	"fmt"
+	"go/token"
 	"go/types"
 	"sort"
 	"strings"
@@ -356,6 +357,39 @@ func propC19(a *Analysis, r *Registry) {
 					}
 				}
 			}
+			if !okOuter {
+				// the test may sit anywhere in the iteration (`for { if b1 == b2 { return b2 } … }`):
+				// the outer loop has one way out, taken exactly when the fingers are equal, and
+				// the result is one of them
+				func() {
+					defer func() { recover() }()
+					var outer *Loop
+					for _, l := range fc.Ctx.Loops() {
+						if outer == nil || len(l.Body) > len(outer.Body) {
+							outer = l
+						}
+					}
+					if outer == nil {
+						return
+					}
+					exits := fc.ExitEdges(outer.Header)
+					if len(exits) != 1 {
+						return
+					}
+					c := exits[0].Cond.SingleAtom()
+					if c == nil || c.Name != "cmp==" {
+						return
+					}
+					v := fc.resolveAlongEdge(exits[0].From, exits[0].To, rv)
+					isFinger := func(q *RF) bool {
+						qa := q.SingleAtom()
+						return qa != nil && X.phiOf[qa.ID] != nil && X.phiOf[qa.ID].Block() == outer.Header
+					}
+					if isFinger(c.Args[0]) && isFinger(c.Args[1]) && (v.Equal(c.Args[0]) || v.Equal(c.Args[1])) {
+						okOuter = true
+					}
+				}()
+			}
 			if okOuter {
 				r.OK(rB, name+"/until-equal", b.pos(fn), "loops while b1 != b2 and returns the meeting point")
 			} else {
@@ -481,8 +515,18 @@ func propC19(a *Analysis, r *Registry) {
 			// inserted once: a membership scan precedes the insertion
 			scan := false
 			fc.Ctx.Instrs(func(in ssa.Instruction) {
+				var cv ssa.Value
 				if ifi2, ok := in.(*ssa.If); ok {
-					if c := fc.Val(ifi2.Cond).SingleAtom(); c != nil && c.Name == "cmp==" {
+					cv = ifi2.Cond
+				} else if bo, ok := in.(*ssa.BinOp); ok && (bo.Op == token.EQL || bo.Op == token.NEQ) {
+					cv = bo // (the comparison may feed a found-flag instead of a branch)
+				}
+				if cv != nil {
+					c := fc.Val(cv).SingleAtom()
+					if c != nil && c.Name == "cmp!=" {
+						c = S.Not(S.atomRF(c.ID)).SingleAtom()
+					}
+					if c != nil && c.Name == "cmp==" {
 						for k := 0; k < 2; k++ {
 							if c.Args[k].Equal(bnode) {
 								if ea := c.Args[1-k].SingleAtom(); ea != nil && ea.Name == "idx" && ea.Args[0].Equal(fc.Val(app.Call.Args[0])) {
